@@ -166,6 +166,51 @@ MUTANTS = [
 ]
 
 
+# harmless refactors: every check must stay quiet on them (false-alarm test).
+# (name, [(file, old, new, count or None)])
+HARMLESS = [
+ ('rename-lp_var-and-variable-names', [
+   ('matchingproblems/solver/*.py+test/*.py', 'lp_var', 'x_var', None),
+   (MODEL, "var_name = '(' + str(self.studentID) + ',' + str(self.projectID) + ')'",
+    "var_name = 'x_' + str(self.studentID) + '_' + str(self.projectID)", 1)]),
+ ('from-datetime-import-datetime', [
+   (SOLV, 'import datetime\n', 'from datetime import datetime\n', 1),
+   (SOLV, 'datetime.datetime.now()', 'datetime.now()', None)]),
+ ('generator-pathlib-and-exist_ok', [
+   (GHR, "        if not os.path.exists(args.outputdirectory):\n            os.makedirs(args.outputdirectory)\n",
+    "        os.makedirs(args.outputdirectory, exist_ok=True)\n", 1),
+   (GHR, "            f = open(args.outputdirectory + '/' + str(instance_number) + \n            '.txt', 'w')\n            f.write(instance)\n            f.close()",
+    "            import pathlib\n            pathlib.Path(args.outputdirectory, str(instance_number) + '.txt').write_text(instance)", 1),
+   (GSPA, "        if not os.path.exists(args.outputdirectory):\n            os.makedirs(args.outputdirectory)\n",
+    "        os.makedirs(args.outputdirectory, exist_ok=True)\n", 1)]),
+ ('results-extra-comment-lines-and-spacing', [
+   (MODEL, "        results += '# solver status\\n'\n", "        results += '# solver status\\n# (status of the last optimisation)\\n'\n", 1),
+   (MODEL, "        results += ('matching: ' + self._get_matching_string(pair_assignments) +", "        results += ('matching:  ' + self._get_matching_string(pair_assignments) +", 1),
+   (MODEL, "        results += ('size: ' + str(", "        results += ('size:   ' + str(", 1)]),
+ ('tighter-but-sufficient-maxsize-bound', [
+   (LP, '                "obj_maxsize", \n                lowBound = 0, \n                upBound = self.model.num_students, ',
+    '                "obj_maxsize", \n                lowBound = 0, \n                upBound = min(self.model.num_students, sum(self.model.proj_upper_quotas)), ', 1)]),
+]
+
+
+def apply_harmless(d, edits):
+    import glob
+    for rel, old, new, count in edits:
+        paths = []
+        for part in rel.split('+'):
+            paths += glob.glob(os.path.join(d, part))
+        total = 0
+        for path in paths:
+            s = open(path).read()
+            total += s.count(old)
+            open(path, 'w').write(s.replace(old, new))
+        if count is not None and total != count:
+            return '%s: pattern occurs %d times' % (rel, total)
+        if total == 0:
+            return '%s: pattern not found' % rel
+    return None
+
+
 def make_scratch():
     base = '/dev/shm' if os.path.isdir('/dev/shm') else tempfile.gettempdir()
     d = tempfile.mkdtemp(prefix='mpmut-', dir=base)
@@ -222,6 +267,8 @@ def main():
     ap.add_argument('--runs', type=int, default=0)
     ap.add_argument('--seeded', action='store_true',
                     help='run against /verif/seeded/*/patch.diff instead')
+    ap.add_argument('--harmless', action='store_true',
+                    help='harmless refactors: every check must stay quiet')
     ap.add_argument('--all-props', action='store_true',
                     help='run every check against each mutant')
     a = ap.parse_args()
@@ -237,6 +284,9 @@ def main():
                 items.append((sid, mj.get('caught_by_expected',
                                           [mj['property']]),
                               os.path.join(root, sid, 'patch.diff')))
+    elif a.harmless:
+        items = [(n, [], e) for n, e in HARMLESS]
+        a.all_props = True
     else:
         items = MUTANTS
     for m in items:
@@ -251,6 +301,8 @@ def main():
                                     '--directory=' + d, m[2]],
                                    capture_output=True, text=True, cwd='/')
                 err = p.stderr.strip() if p.returncode else None
+            elif a.harmless:
+                err = apply_harmless(d, m[2])
             else:
                 err = apply_mutant(d, m)
             if err:
@@ -278,7 +330,12 @@ def main():
         finally:
             shutil.rmtree(d, ignore_errors=True)
             shutil.rmtree(out, ignore_errors=True)
-    name = 'sensitivity_seeded.json' if a.seeded else 'sensitivity.json'
+    name = 'sensitivity_seeded.json' if a.seeded else (
+        'harmless_refactors.json' if a.harmless else 'sensitivity.json')
+    if a.harmless:
+        alarms = [(r['mutant'], p_) for r in results
+                  for p_, c in r.get('checks', {}).items() if c['exit'] != 0]
+        print('harmless refactors: %d, alarms: %s' % (len(results), alarms))
     if not a.only:
         with open(os.path.join(VERIF, name), 'w') as f:
             json.dump(results, f, indent=1)
